@@ -86,7 +86,8 @@ class Report:
                 break
             k += 1
         with open(path, "w") as f:
-            json.dump({"property": self.pid, "why": why, "case": case}, f, indent=1, default=str)
+            json.dump({"property": self.pid, "why": why, "seed": common.seed(), "tier": self.tier, "case": case},
+                      f, indent=1, default=str)
         if self._printed_violations < 20:
             print("VIOLATION property=%s replay=%s" % (self.pid, path))
             print("  why: %s" % (why[:500],))
